@@ -285,6 +285,11 @@ void sqf::fileio::impl_default::add_pbo_mapping(std::filesystem::path p)
         log(logmessage::fileio::PBOAlreadyAdded(p.string()));
         return;
     }
+    if (!std::filesystem::exists(p))
+    { // pbofile(path) would create a new, empty archive at that path
+        log(logmessage::fileio::FailedToParsePBO(p.string()));
+        return;
+    }
     rvutils::pbo::pbofile pbo(p);
     if (!pbo.good())
     {
